@@ -205,10 +205,16 @@ impl Service<Req> for QInner {
 pub struct ListenerCounts {
     pub counts: Vec<AtomicU64>,
     pub panic_mask: u64,
+    /// listeners (bit mask) that take `slow_ms` of wall time (the virtual std clock is moved forward)
+    pub slow_mask: u64,
+    pub slow_ms: u64,
 }
 impl ListenerCounts {
     fn hit(&self, i: usize) {
         self.counts[i].fetch_add(1, Ordering::SeqCst);
+        if self.slow_mask & (1 << i) != 0 {
+            bump_std_clock(self.slow_ms);
+        }
         if self.panic_mask & (1 << i) != 0 {
             panic!("listener {} panics", i);
         }
@@ -305,6 +311,24 @@ fn apply(name: &str, inner: BoxSvc, lc: &Arc<ListenerCounts>) -> Option<BoxSvc> 
                 CircuitBreakerError::OpenCircuit => SErr("circuit!open".into()),
             }))
         }
+        // slow-call detection on, window of two calls: time spent in listeners must not count as call time
+        "circuit_slow" => {
+            use tower_resilience_circuitbreaker::{CircuitBreakerError, CircuitBreakerLayer};
+            let layer = CircuitBreakerLayer::builder()
+                .sliding_window_size(2)
+                .failure_rate_threshold(1.0)
+                .slow_call_duration_threshold(Duration::from_millis(40))
+                .slow_call_rate_threshold(1.0)
+                .wait_duration_in_open(Duration::from_secs(3600))
+                .on_call_permitted(move |_| l0.hit(0))
+                .on_call_permitted(move |_| l1.hit(1))
+                .on_call_permitted(move |_| l2.hit(2))
+                .build();
+            boxed(layer.layer_fn(inner).map_err(|e| match e {
+                CircuitBreakerError::Inner(e) => SErr(format!("circuit({})", e)),
+                CircuitBreakerError::OpenCircuit => SErr("circuit!open".into()),
+            }))
+        }
         "timelimiter" | "timelimiter_nocancel" => {
             use tower_resilience_timelimiter::{TimeLimiterError, TimeLimiterLayer};
             let layer = TimeLimiterLayer::builder()
@@ -338,7 +362,7 @@ fn apply(name: &str, inner: BoxSvc, lc: &Arc<ListenerCounts>) -> Option<BoxSvc> 
             use tower_resilience_cache::{CacheError, CacheLayer};
             let layer = CacheLayer::<Req, u64>::builder()
                 .max_size(10_000)
-                .key_extractor(|r: &Req| r.tag)
+                .key_extractor(|r: &Req| r.tag % 1000)
                 .on_miss(move || l0.hit(0))
                 .on_miss(move || l1.hit(1))
                 .on_miss(move || l2.hit(2))
@@ -482,7 +506,12 @@ impl Stack {
     fn new(kv: &Kv, layers: &[String], lp: u64, quiet: bool) -> Stack {
         let n = layers.len();
         let sh = Arc::new(TapShared { next: Mutex::new(vec![1; n + 1]), quiet });
-        let lc = Arc::new(ListenerCounts { counts: (0..3).map(|_| AtomicU64::new(0)).collect(), panic_mask: lp });
+        let lc = Arc::new(ListenerCounts {
+            counts: (0..3).map(|_| AtomicU64::new(0)).collect(),
+            panic_mask: lp,
+            slow_mask: if quiet { 0 } else { kv.u64("ls", 0) },
+            slow_ms: kv.u64("lsms", 90),
+        });
         let kind = kv.str("inner", "strict");
         let script = if kind == "strict" { kv.str("ready", "") } else { String::new() };
         let cl = kv.u64("cl", 2) as usize;
@@ -623,7 +652,7 @@ impl Adapter {
         let lp = kv.u64("lp", 0);
         let spawning = layers.iter().filter(|l| layer_spawns(l)).count() + (kv.str("inner", "strict") == "buffer") as usize;
         let main = Stack::new(kv, &layers, lp, false);
-        let twin = if lp != 0 { Some(Stack::new(kv, &layers, 0, true)) } else { None };
+        let twin = if lp != 0 || kv.u64("ls", 0) != 0 { Some(Stack::new(kv, &layers, 0, true)) } else { None };
         Adapter { main, twin, yields: if spawning == 0 { 0 } else { 8 * (spawning + 1) } }
     }
 }
